@@ -602,14 +602,32 @@ pub fn build_sized(pattern: &str, casei: bool, limit: Option<usize>, sizes: Opti
     if let Some(l) = limit {
         options.backtrack_limit = l;
     }
-    if let Some((a, d)) = sizes {
-        options.delegate_size_limit = Some(a);
-        options.delegate_dfa_size_limit = Some(d);
-    }
-    let regex = match Regex::new_options(options.clone()) {
-        Ok(r) => r,
-        Err(e) => return Err(std::format!("{:?}", e)),
+    let regex = match sizes {
+        // the size limits go through the public builder (no dependence on how the options
+        // are stored); the options of the result are read back from it
+        Some((a, d)) => {
+            let mut bld = crate::RegexBuilder::new(pattern);
+            bld.case_insensitive(casei);
+            if let Some(l) = limit {
+                bld.backtrack_limit(l);
+            }
+            bld.delegate_size_limit(a).delegate_dfa_size_limit(d);
+            match bld.build() {
+                Ok(r) => r,
+                Err(e) => return Err(std::format!("{:?}", e)),
+            }
+        }
+        None => match Regex::new_options(options.clone()) {
+            Ok(r) => r,
+            Err(e) => return Err(std::format!("{:?}", e)),
+        },
     };
+    if sizes.is_some() {
+        options = match &regex.inner {
+            RegexImpl::Wrap { options, .. } => options.clone(),
+            RegexImpl::Fancy { options, .. } => options.clone(),
+        };
+    }
     let log: Vec<(String, SyntaxConfig)> = DELEGATE_LOG.with(|l| l.borrow_mut().drain(..).collect());
     let mut classes: Vec<Cls> = Vec::new();
     let mut insn_kinds = 0u32;
